@@ -25,14 +25,9 @@ def first_loop(f, kinds=(ast.For, ast.While)):
 def d1_checkpoint_per_point(ctx, repo):
     rule = "C03.D1-checkpoint-per-data-point"
     checkpoint_dominates_actions(ctx, rule, repo.func(PS, "one_shot"))
-    checkpoint_dominates_actions(ctx, rule, repo.func(PS, "one_1d_step.move"))
-    f = repo.func(PS, "one_1d_step")
-    # the reading is taken after move(), which starts with the checkpoint
-    seq = [s for s in f.node.body if not isinstance(s, (ast.FunctionDef, ast.Expr)) or (isinstance(s, ast.Expr) and not isinstance(s.value, ast.Constant))]
-    yf = [A.norm(n.value) for s in f.node.body for n in A.walk_local(s) if isinstance(n, ast.YieldFrom)]
-    ok = len(yf) >= 2 and yf[0] == "move()" and "take_reading" in yf[1]
-    ctx.ob(rule, cname(f, None, "move() (checkpoint first) precedes the reading"), ok,
-           "" if ok else f"yield-from order is {yf}", where=where(f, f.node))
+    # one_1d_step: its move helper may be a nested generator or written in line - both are looked at as one flat plan
+    f = q.flat_view(repo.func(PS, "one_1d_step"))
+    checkpoint_dominates_actions(ctx, rule, f, extra_actions=("take_reading",), what="checkpoint before the move and the reading")
     checkpoint_dominates_actions(ctx, rule, repo.func(PS, "move_per_step"))
     f = repo.func(PS, "one_nd_step")
     yf = [A.norm(n.value) for s in f.node.body for n in A.walk_local(s) if isinstance(n, ast.YieldFrom)]
